@@ -368,7 +368,62 @@ def rule_axis_conditions(ctx, rule='R15.9', files=('tree.c', 'boundary.c', 'coll
     ctx.covered(rule, 'per-axis comparisons inside || / && chains occur once for each of x, y, z (%s)' % ', '.join(files), n, floor=floor)
 
 
+def rule_cell_moments(ctx, rule='R15.10'):
+    """R15.10: reb_simulation_update_tree_gravity_data_in_cell is called for every root cell and recursively for every
+    daughter. (a) Called on a leaf it must take mass and position from the particle the leaf holds - a function that
+    refreshes leaves only while visiting their parent leaves a root box holding exactly one particle at mass 0.
+    (b) The centre of mass is a quotient by the accumulated cell mass, which is 0 for a cell of massless particles: every
+    division by the accumulated mass is guarded by a test that it is positive (else NaN positions poison every walk)."""
+    from . import pathcond, extents
+    tu = cfront.load_tu('tree.c')
+    fn = tu.func('reb_simulation_update_tree_gravity_data_in_cell')
+    node = [p_['name'] for p_ in cfront.params(fn) if 'reb_treecell' in qtype(p_)]
+    anchor(len(node) == 1, 'cell parameter of reb_simulation_update_tree_gravity_data_in_cell')
+    node = node[0]
+    pc = pathcond.conditions(fn)
+    L = extents.lets(fn)
+    n = 0
+    # (a) leaf case of the cell itself
+    leaf = []
+    for e in walk(cfront.body(fn)):
+        if is_assign(e) and e['opcode'] == '=' and render(e['inner'][0]) == node + '.m':
+            rhs = extents.canon(extents.resolve(render(e['inner'][1]), L))
+            if ('particles[%s.pt]' % node) in rhs:
+                leaf.append(e)
+    n += 1
+    if not leaf:
+        ctx.report(rule, 'cell-moments:leaf', 'src/tree.c %s' % fn['name'],
+                   'the function never sets %s->m from the particle %s->pt: when it is called on a leaf (a root box holding a single particle, or a daughter leaf) the cell keeps its old mass - zero for a fresh cell - and the particle attracts nobody' % (node, node))
+    else:
+        for e in leaf:
+            cs = [c.replace(' ', '') for c in pc.get(id(e), [])]
+            if not any(('%s.pt' % node) in c for c in cs):
+                ctx.report(rule, 'cell-moments:leaf:guard', 'src/tree.c:%s %s' % (line_of(e), fn['name']), 'the leaf case is not selected by a test of %s->pt' % node)
+    # (b) divisions by the accumulated mass
+    acc = {render(e['inner'][0]) for e in walk(cfront.body(fn)) if is_assign(e) and e['opcode'] == '+=' and render(e['inner'][0]).endswith('.m')}
+    names = set(acc)
+    for k_, v_ in L.items():
+        if extents.canon(v_) in {extents.canon(a) for a in acc}:
+            names.add(k_)
+    for e in walk(cfront.body(fn)):
+        div = None
+        if is_assign(e) and e['opcode'] == '/=':
+            div = render(e['inner'][1])
+        elif e.get('kind') == 'BinaryOperator' and e.get('opcode') == '/':
+            div = render(e['inner'][1])
+        if div is None or div.strip('()') not in names:
+            continue
+        n += 1
+        cs = [c.replace(' ', '').strip('()') for c in pc.get(id(e), [])]
+        ok = any(c in ('%s>0' % d_, '%s>0.0' % d_, '0<%s' % d_, '%s!=0' % d_, d_) for c in cs for d_ in names)
+        if not ok:
+            ctx.report(rule, 'cell-moments:division:%s' % line_of(e), 'src/tree.c:%s %s' % (line_of(e), fn['name']),
+                       'division by the accumulated cell mass %s without a test that it is positive (conditions: %s): a cell that holds only massless particles gets a NaN centre of mass, which every tree walk then adds to every acceleration' % (div, cs or 'none'))
+    ctx.covered(rule, 'cell moments: leaf case of the visited cell itself; divisions by the accumulated mass are guarded', n, floor=4)
+
+
 def run(ctx):
+    rule_cell_moments(ctx)
     rule_axis_conditions(ctx)
     serial.rule_R05_2(ctx)                 # the box and root-grid geometry of a restored simulation: each descriptor row designates the member it names
     rule_boundary_extent(ctx)
